@@ -356,7 +356,9 @@ func c02Plugin(pre bool) {
 		case 2:
 			attrs = append(attrs, signature.Attribute{Key: HeaderVerificationPluginMinVersion, Critical: false, Value: "1.0.0"})
 		case 3:
-			attrs = append(attrs, signature.Attribute{Key: HeaderVerificationPluginMinVersion, Critical: true, Value: "1.x"})
+			// not a semantic version: wrong shape, or a version wrapped in blanks, prefixed, shortened, zero-padded
+			bad := []string{"1.x", " 1.1.0", "1.1.0\n", "v1.1.0", "1.1", "01.1.0"}[vr.Choice("badMinVersion", 6)]
+			attrs = append(attrs, signature.Attribute{Key: HeaderVerificationPluginMinVersion, Critical: true, Value: bad})
 		}
 		nc := vr.Choice("ncaps", 3)
 		for i := 0; i < nc; i++ {
